@@ -99,6 +99,17 @@ def h_meta_limit(ctx, cfg, nm):
                   exc_name(e) if e is not None else "packed %d octets" % len(raw))
     else:
         ctx.holds("63 octets of segment metadata accepted", e is None and raw[hdr_len(v)] == ((state << 6) | nm), exc_name(e))
+    # the limit holds at packing time, however the metadata object got its content
+    sm = SegmentMetadata(state, bytes(3))
+    pdu = FileDataPdu(conf, FileDataParams(ctx.octets("file_data2", 1), 0, sm))
+    sm.metadata = meta
+    pdu.segment_metadata = sm
+    e, raw = call(pdu.pack)
+    if nm > 63:
+        ctx.holds("metadata grown beyond 63 octets after creation is refused with ValueError at the latest when packing",
+                  isinstance(e, ValueError), exc_name(e) if e is not None else "packed %d octets" % len(raw))
+    else:
+        ctx.holds("metadata grown to 63 octets after creation is packed", e is None and raw[hdr_len(v)] == ((state << 6) | nm), exc_name(e))
 
 
 def h_max_seg(ctx, cfg, nm):
